@@ -119,6 +119,7 @@ CHECKS = {
                         "janitor never fires (interval 10^6 h)"],
         "jobs": [
             {"run": "^TestC07BackendModel$", "n": {"quick": 20000, "thorough": 150000}},
+            {"fuzz": "^FuzzC07BackendModel$", "fuzztime": {"thorough": "60s"}, "tiers": ("thorough",), "timeout": {"quick": 300, "thorough": 600}},
         ],
     },
     "C08": {
@@ -168,6 +169,7 @@ CHECKS = {
         "assumptions": ["band edges allow |T|*2^-50 + 2ns of float64 rounding"],
         "jobs": [
             {"run": "^TestC10ExpiryBounds$", "n": {"quick": 30000, "thorough": 200000}},
+            {"fuzz": "^FuzzC10ExpiryBounds$", "fuzztime": {"thorough": "45s"}, "tiers": ("thorough",), "timeout": {"quick": 300, "thorough": 600}},
         ],
     },
     "C11": {
@@ -213,6 +215,7 @@ CHECKS = {
         "assumptions": ["values come from a pool registered once per process with cache.GobRegister"],
         "jobs": [
             {"run": "^TestC13DumpRestore$", "n": {"quick": 5000, "thorough": 50000}},
+            {"fuzz": "^FuzzC13DumpRestore$", "fuzztime": {"thorough": "60s"}, "tiers": ("thorough",), "timeout": {"quick": 300, "thorough": 600}},
         ],
     },
     "C14": {
@@ -297,6 +300,7 @@ CHECKS = {
         "jobs": [
             {"run": "^TestC18Backend$", "n": {"quick": 10000, "thorough": 100000}},
             {"run": "^TestC18Failover$", "n": {"quick": 6000, "thorough": 40000}},
+            {"run": "^TestC18Concurrent$", "n": {"quick": 6000, "thorough": 40000}},
         ],
     },
 }
